@@ -78,6 +78,19 @@ pub open spec fn first<T>(s: Seq<T>, q: spec_fn(T) -> bool) -> Option<T>
     }
 }
 
+// the subsequence of the elements satisfying `q`, order kept
+pub open spec fn sfilter<T>(s: Seq<T>, q: spec_fn(T) -> bool) -> Seq<T>
+    decreases s.len(),
+{
+    if s.len() == 0 {
+        Seq::<T>::empty()
+    } else if q(s[0]) {
+        seq![s[0]] + sfilter(s.drop_first(), q)
+    } else {
+        sfilter(s.drop_first(), q)
+    }
+}
+
 // the sequence of references to the elements of `s` (what slice::Iter yields)
 pub open spec fn refs<'a, T>(s: Seq<T>) -> Seq<&'a T> { Seq::new(s.len(), |i: int| &s[i]) }
 
@@ -102,7 +115,7 @@ pub trait Iterator: Sized {
     // core::iter::Iterator::filter: the subsequence on which the predicate returns true
     fn filter<P: Fn(&Self::Item) -> bool>(self, predicate: P) -> (r: Filter<Self::Item, P>)
         requires forall|t: Self::Item| #[trigger] predicate.requires((&t,)),
-        ensures forall|q: spec_fn(Self::Item) -> bool| decides(predicate, q) ==> r.fitems() == #[trigger] self.items().filter(q);
+        ensures forall|q: spec_fn(Self::Item) -> bool| decides(predicate, q) ==> r.fitems() == #[trigger] sfilter(self.items(), q);
 
     // core::iter::Iterator::map
     fn map<B, F: Fn(Self::Item) -> B>(self, f: F) -> (r: Map<B, F>)
